@@ -18,7 +18,7 @@ VARIABLES l,        \* next line
           S         \* set of AsyncCore states consistent with the observations
 vars == <<l, ctx, S>>
 
-Core == INSTANCE AsyncCore WITH u <- Rec[ctx.begin].u, p <- Rec[ctx.begin].p
+Core == INSTANCE AsyncCore WITH u <- Rec[ctx.begin].u, p <- Rec[ctx.begin].p, CleanupOnDrop <- TRUE
 
 Line(kind, rest) == PrintT(kind \o "|" \o ToString(ctx.id) \o "|1|" \o rest)
 Fail(rule, info) == Line("RULEFAIL", ToString(l) \o "|" \o rule \o "|" \o ToString(info))
